@@ -912,6 +912,9 @@ def _on_alarm(signum, frame):
     raise _PathTimeout()
 
 
+VIOLATION_STOP = 300
+
+
 def explore(harness, max_paths=10**9, max_wall=10**9, on_path=None, path_timeout=120):
     """Run harness(ctx) over every feasible path.  Returns (stats, violations) where
     violations is a list of (Violation, info) for the path they occurred on."""
@@ -969,6 +972,11 @@ def explore(harness, max_paths=10**9, max_wall=10**9, on_path=None, path_timeout
             st.stub_hits[k] = st.stub_hits.get(k, 0) + v
         for v in ctx.violations:
             out.append((v, dict(ctx.info)))
+        if len(out) >= VIOLATION_STOP:
+            # enough counterexamples for this unit: stop exploring it (the unit is red either
+            # way - a replay-confirmed violation, or inconclusive if none replays)
+            st.stopped_after_violations = True
+            break
         tr = ctx.trace
         for i in range(len(prefix), len(tr)):
             ent = tr[i]
